@@ -45,7 +45,7 @@ TrReset ==
     /\ pc' = [s \in Senders |-> "top"]
     /\ conn' = [s \in Senders |-> 0]
     /\ recon' = [s \in Senders |-> FALSE]
-    /\ wb' = [s \in Senders |-> 0]
+    /\ wb' = [s \in Senders |-> 0] /\ rh' = [s \in Senders |-> 0]
     /\ prim' = 1 /\ hpc' = "idle" /\ hpkt' = 0 /\ hfull' = TRUE
     /\ shut' = FALSE /\ closing' = 0 /\ stopReq' = [s \in Senders |-> FALSE]
     /\ fwd' = 0 /\ drp' = 0 /\ werrs' = 0 /\ rerrs' = 0
@@ -73,7 +73,7 @@ TrCallEnd ==
     /\ hpc = "idle"
     /\ IF E.np = 0
        THEN PushClosedEff /\ nextId' = nextId + 1
-       ELSE UNCHANGED <<bufv, conn, recon, wb, hndv, clsv, statv, ghov>>
+       ELSE UNCHANGED <<bufv, conn, recon, wb, rh, hndv, clsv, statv, ghov>>
     /\ chk' = [fwd |-> E.fwd, drp |-> E.drp]
     /\ q' = {} /\ UNCHANGED <<endv, scn, hist, pc, ovd, lateok>>
 
@@ -85,18 +85,18 @@ TrSwapSleep ==
        THEN tmo' = [tmo EXCEPT ![E.s] = FALSE] /\ tmr' = [tmr EXCEPT ![E.s] = "armed"]
        ELSE UNCHANGED <<tmo, tmr>>
     /\ cv' = [cv EXCEPT ![E.s] = "asleep"]
-    /\ UNCHANGED <<w, r, ri, closedB, conn, recon, wb, hndv, clsv, statv, ghov>>
+    /\ UNCHANGED <<w, r, ri, closedB, conn, recon, wb, rh, hndv, clsv, statv, ghov>>
     /\ Keep
 TrSwapWake ==
     /\ IsEvent("SwapWake") /\ cv[E.s] \in {"asleep", "woken"}
     /\ cv' = [cv EXCEPT ![E.s] = "run"]
-    /\ UNCHANGED <<w, r, ri, closedB, tmr, tmo, conn, recon, wb, hndv, clsv, statv, ghov>>
+    /\ UNCHANGED <<w, r, ri, closedB, tmr, tmo, conn, recon, wb, rh, hndv, clsv, statv, ghov>>
     /\ Keep
 TrSwapTimeout ==          \* informational: a late callback of an earlier swap() looks the same
     /\ IsEvent("SwapTimeout")
     /\ tmo' = [tmo EXCEPT ![E.s] = TRUE] /\ tmr' = [tmr EXCEPT ![E.s] = "off"]
     /\ cv' = Signal(cv, E.s)
-    /\ UNCHANGED <<w, r, ri, closedB, conn, recon, wb, hndv, clsv, statv, ghov>>
+    /\ UNCHANGED <<w, r, ri, closedB, conn, recon, wb, rh, hndv, clsv, statv, ghov>>
     /\ Keep
 TrSwapDone ==
     /\ IsEvent("SwapDone") /\ cv[E.s] \in {"none", "run"}
@@ -110,14 +110,14 @@ TrSwapDone ==
        ELSE /\ r' = [r EXCEPT ![E.s] = w[E.s]]
             /\ w' = [w EXCEPT ![E.s] = <<>>]
             /\ ri' = [ri EXCEPT ![E.s] = 0]
-    /\ UNCHANGED <<tmo, conn, recon, wb, hndv, clsv, statv, ghov>>
+    /\ UNCHANGED <<tmo, conn, recon, wb, rh, hndv, clsv, statv, ghov>>
     /\ Keep
 
 (* pop(): the slice handed to the writer, and the outcome *)
 TrPopWrite ==
     /\ IsEvent("PopWrite")
     /\ E.ri = ri[E.s] /\ E.rm = Len(r[E.s]) /\ E.ri < E.rm
-    /\ UNCHANGED <<bufv, conn, recon, wb, hndv, clsv, statv, ghov>>
+    /\ UNCHANGED <<bufv, conn, recon, wb, rh, hndv, clsv, statv, ghov>>
     /\ Keep
 TrPopOK ==
     /\ IsEvent("PopOK")
@@ -129,7 +129,7 @@ TrPopOK ==
 TrOverdue ==
     /\ IsEvent("Overdue")
     /\ ovd' = ovd \cup {E.s} /\ UNCHANGED lateok
-    /\ UNCHANGED <<bufv, conn, recon, wb, hndv, clsv, statv, ghov>>
+    /\ UNCHANGED <<bufv, conn, recon, wb, rh, hndv, clsv, statv, ghov>>
     /\ Keep0
 TrPopErr ==               \* left = what f returned (unwritten buffers - 1), ri = b.ri afterwards
     /\ IsEvent("PopErr")
@@ -147,7 +147,7 @@ TrReconClose ==
     /\ IsEvent("ReconClose")
     /\ conn' = [conn EXCEPT ![E.s] = 0]
     /\ recon' = [recon EXCEPT ![E.s] = FALSE]
-    /\ UNCHANGED <<bufv, wb, hndv, clsv, statv, ghov>>
+    /\ UNCHANGED <<bufv, wb, rh, hndv, clsv, statv, ghov>>
     /\ Keep
 
 (* reportWouldBlockIfAny: Report precedes the write, ReportErr follows a failed one.  The
@@ -164,14 +164,14 @@ TrReportErr ==
     /\ wb' = [wb EXCEPT ![E.s] = @ + E.amt]
     /\ reported' = reported - E.amt
     /\ werrs' = werrs + 1
-    /\ UNCHANGED <<bufv, conn, recon, hndv, clsv, fwd, drp, rerrs, acc, done, upOf, stc, skipped,
+    /\ UNCHANGED <<bufv, conn, recon, rh, hndv, clsv, fwd, drp, rerrs, acc, done, upOf, stc, skipped,
                    drops, dropBytes, closedRej, repLost, errs, spur>>
     /\ Keep
 
 TrClose ==
     /\ IsEvent("Close")
     /\ shut' = TRUE
-    /\ UNCHANGED <<bufv, conn, recon, wb, hndv, closing, stopReq, statv, ghov>>
+    /\ UNCHANGED <<bufv, conn, recon, wb, rh, hndv, closing, stopReq, statv, ghov>>
     /\ Keep
 
 ToSet(s) == {s[i] : i \in 1..Len(s)}
